@@ -233,6 +233,7 @@ type VarDecl struct {
 	Closure *Closure // if non-nil
 	Site    *Site    // if non-nil: the whole declaration is this one-line site
 	Grouped bool     // var ( ... )
+	Site2   *Site    // second spec of the same var ( ... ) group (only with Grouped and Site)
 }
 
 func (v *VarDecl) declNode() *Node { return &v.Node }
@@ -397,6 +398,9 @@ func walkDecl(pkg *Pkg, f *File, d Decl, fn func(SiteInfo)) {
 		ctx := Ctx{Pkg: pkg, File: f, VarDecl: d}
 		if d.Site != nil {
 			fn(SiteInfo{Site: d.Site, Ctx: ctx})
+		}
+		if d.Site2 != nil {
+			fn(SiteInfo{Site: d.Site2, Ctx: ctx})
 		}
 		if d.Closure != nil {
 			for _, pv := range d.Closure.Params {
